@@ -3,12 +3,14 @@ From AS Require Import Base.Str Config.Loader Proofs.P17 Corr.Common.
 
 Record case17 := { k_in : config; k_class : nat (* 0 accepted, 1 error, 2 panic *); k_out : option config }.
 
-(* codes: 1 = model and implementation disagree (class, or the accepted configuration);
+(* codes: 1 = model and implementation disagree (class, or the accepted configuration); 6 = both accept, different result;
           2 = the implementation accepted a configuration that is not fully resolved, or panicked *)
 Definition run_case (ci : nat) (k : case17) : list fail :=
   let m := load (k_in k) in
   ((match m, k_class k, k_out k with
-    | Ok c, 0, Some c' => if config_eqb c c' then [] else [(ci, 0, 1)]
+    (* both accept but the accepted configuration is not the field-by-field resolution of the document: the
+       property speaks about exactly that ("overrides merged over the default field by field") *)
+    | Ok c, 0, Some c' => if config_eqb c c' then [] else [(ci, 0, 1); (ci, 0, 6)]
     | Error, 1, _ => []
     | Panic, 2, _ => []
     | _, _, _ => [(ci, 0, 1)]
